@@ -175,7 +175,14 @@ def rule_tag_attrs_spare_client_members(repo: Repo, rep, rule: str = "R7.14") ->
                 tg = st.targets[0] if isinstance(st, ast.Assign) else st.target
                 if isinstance(tg, ast.Name):
                     tables[tg.id] = {const_str(e) for e in st.value.elts if const_str(e)}
-        for d in derivs:
+        # the deriving sanitiser and the helpers of the class it hands the name to (`_protect_snake_case_name(...)`)
+        todo = [d for d in derivs]
+        seen_m: Set[str] = set()
+        while todo:
+            d = todo.pop()
+            if d in seen_m:
+                continue
+            seen_m.add(d)
             m_ = ns.methods.get(d)
             if m_ is not None:
                 for x in ast.walk(m_.node):
@@ -183,6 +190,8 @@ def rule_tag_attrs_spare_client_members(repo: Repo, rep, rule: str = "R7.14") ->
                         refused |= tables[x.attr]
                     if isinstance(x, ast.Name) and x.id in tables:
                         refused |= tables[x.id]
+                    if isinstance(x, ast.Call) and isinstance(x.func, ast.Attribute) and x.func.attr in ns.methods and x.func.attr not in seen_m:
+                        todo.append(x.func.attr)
     for nm, c in sorted(list(public.items()) + [("_" + k, v) for k, v in private.items()]):
         bare = nm.lstrip("_")
         sub = f"{fn.module.relpath}:APIClient member `{nm}` vs. tag attributes"
